@@ -104,6 +104,7 @@ pub mod util {
 //@item src=nexosim/src/util/task_set.rs kind=filehead name=task_set id=file-task_set
 //@end
         // (the two external crates are the stub modules above)
+//@helpers src=nexosim/src/util/task_set.rs
         use crate::diatomic_waker;
         use crate::futures_task;
     }
@@ -139,6 +140,7 @@ pub mod ports {
         pub mod broadcaster {
 //@item src=nexosim/src/ports/output/broadcaster.rs kind=filehead name=broadcaster id=file-broadcaster
 //@end
+//@helpers src=nexosim/src/ports/output/broadcaster.rs
             use crate::diatomic_waker;
         }
 //@include inc/xbcast_harness.rs
